@@ -13,6 +13,7 @@ func init() {
 }
 
 func runC02(p *Prog, r *Report) {
+	crossCutting(p, r, "C02.X", "internal/core", "protocol/xpair", "protocol/xpair1", "protocol/xpush", "protocol/xpull")
 	lockBalance(p, r, "C02.7/E1", "internal/core", "protocol/xpair", "protocol/xpair1", "protocol/xpush", "protocol/xpull")
 	q := NewQ(p, r)
 	R := "C02.1/pair-admission"
